@@ -554,7 +554,7 @@ class MetaMessage(BaseMessage):
             length_data = msg_bytes[2:scan_end]
             length = decode_variable_int(length_data)
             data = msg_bytes[scan_end:]
-            if length == len(data):
+            if msg_bytes[scan_end - 1] < 0x80 and length == len(data):
                 flag = False
         if flag:
             raise ValueError('Bad data. Cannot be converted to message.')
